@@ -6,5 +6,6 @@ CONSTANTS
   FlavourSets = {{"SHA1"}, {"SHA256"}, {"SHA1", "SHA256"}}
   Mode = "code"
   Emit = TRUE
-INVARIANTS Converges NeverCorrupt NoTempLeft AlwaysOldOrNew FaultRaises
+INVARIANTS TypeOK Converges NeverCorrupt NoTempLeft AlwaysOldOrNew FaultRaises IndexFaultConverges
+           HashFaultWritesNothing GarbledNeverApplied ByPatchesWhenListed
 CHECK_DEADLOCK FALSE
